@@ -72,7 +72,7 @@ func c17Hash(fx *c17fx) uint64 {
 	mixf := func(f float64) { h = (h ^ math.Float64bits(f)) * 1099511628211 }
 	mixi := func(i int) { h = (h ^ uint64(i)) * 1099511628211 }
 	mixb := func(b []byte) {
-		for _, x := range b {
+		for _, x := range b[:cap(b)] {
 			h = (h ^ uint64(x)) * 1099511628211
 		}
 		mixi(len(b))
@@ -91,38 +91,47 @@ func c17Hash(fx *c17fx) uint64 {
 		mixi(int(t.Layout()))
 		mixi(t.Stride())
 		mixi(t.SRID())
-		for _, f := range t.FlatCoords() {
+		// everything up to the capacity: a callee that appends to a slice it was
+		// given writes into the spare capacity without changing what the caller sees
+		fc := t.FlatCoords()
+		for _, f := range fc[:cap(fc)] {
 			mixf(f)
 		}
-		mixi(len(t.FlatCoords()))
-		for _, e := range t.Ends() {
+		mixi(len(fc))
+		es1 := t.Ends()
+		for _, e := range es1[:cap(es1)] {
 			mixi(e)
 		}
-		for _, es := range t.Endss() {
-			for _, e := range es {
+		mixi(len(es1))
+		ess := t.Endss()
+		for _, es := range ess[:cap(ess)] {
+			for _, e := range es[:cap(es)] {
 				mixi(e)
 			}
 			mixi(len(es))
 		}
+		mixi(len(ess))
 	}
 	for _, g := range fx.geoms {
 		hg(g)
 	}
 	for _, f := range fx.flats {
-		for _, v := range f {
+		for _, v := range f[:cap(f)] {
 			mixf(v)
 		}
 		mixi(len(f))
 	}
 	for _, f := range fx.rings {
-		for _, v := range f {
+		for _, v := range f[:cap(f)] {
 			mixf(v)
 		}
+		mixi(len(f))
 	}
 	for _, c := range fx.coords {
-		for _, v := range c {
+		for _, v := range c[:cap(c)] {
 			mixf(v)
 		}
+		mixi(len(c))
 	}
 	for _, b := range fx.wkbs {
 		mixb(b)
@@ -175,6 +184,16 @@ func c17Fixtures(seed uint64) *c17fx {
 		}
 		g.SRID = []int{0, 4326}[r.Intn(2)]
 		t := g.BuildFlat()
+		if g.Kind != model.Collection && i%3 != 0 {
+			// storage with spare capacity behind every slice, filled with canaries
+			t = c16Build(g, 1)
+			geom.SetSRID(t, g.SRID)
+			c17Canary(t.FlatCoords())
+			c17CanaryInts(t.Ends())
+			for _, es := range t.Endss() {
+				c17CanaryInts(es)
+			}
+		}
 		fx.geoms = append(fx.geoms, t)
 		fx.models = append(fx.models, g)
 		if _, isRing := t.(*geom.LinearRing); !isRing {
@@ -221,12 +240,16 @@ func c17Fixtures(seed uint64) *c17fx {
 		for k := 0; k < n; k++ {
 			f = append(f, float64(r.Range(-50, 50)), float64(r.Range(-50, 50)))
 		}
-		fx.flats = append(fx.flats, f)
+		fx.flats = append(fx.flats, c17Canary(withSpare(f, 16)))
 		ring := starRing(r, 0, 0, 100, r.Range(3, 12))
-		fx.rings = append(fx.rings, flatRing(ring, 2, nil))
+		fr := flatRing(ring, 2, nil)
+		if i%2 == 1 {
+			fr = fr[:len(fr)-2] // not closed: the first vertex is not repeated
+		}
+		fx.rings = append(fx.rings, c17Canary(withSpare(fr, 16)))
 	}
 	for i := 0; i < 40; i++ {
-		fx.coords = append(fx.coords, geom.Coord{float64(r.Range(-20, 20)), float64(r.Range(-20, 20)), float64(r.Range(-20, 20))})
+		fx.coords = append(fx.coords, geom.Coord(c17Canary(withSpare([]float64{float64(r.Range(-20, 20)), float64(r.Range(-20, 20)), float64(r.Range(-20, 20))}, 4))))
 	}
 	for i := 0; i < 6; i++ {
 		n := r.Range(1, 30)
@@ -242,7 +265,33 @@ func c17Fixtures(seed uint64) *c17fx {
 		fx.igcs = append(fx.igcs, buf.Bytes())
 	}
 	fx.igcs = append(fx.igcs, []byte(c19Seeds[1]), []byte(c19Seeds[2]))
+	for _, bs := range []*[][]byte{&fx.wkbs, &fx.ewkbs, &fx.jsons, &fx.feats, &fx.igcs} {
+		for i, b := range *bs {
+			nb := make([]byte, len(b), len(b)+32)
+			copy(nb, b)
+			for j := len(b); j < cap(nb); j++ {
+				nb[:cap(nb)][j] = 0xA5
+			}
+			(*bs)[i] = nb
+		}
+	}
 	return fx
+}
+
+// c17Canary fills the spare capacity of f with a recognisable value.
+func c17Canary(f []float64) []float64 {
+	full := f[:cap(f)]
+	for i := len(f); i < len(full); i++ {
+		full[i] = -7.25e300
+	}
+	return f
+}
+
+func c17CanaryInts(e []int) {
+	full := e[:cap(e)]
+	for i := len(e); i < len(full); i++ {
+		full[i] = -424242
+	}
 }
 
 type c17fn struct {
@@ -599,6 +648,48 @@ var c17Registry = func() []c17fn {
 			ts.Insert(fx.flats[k][i : i+2])
 		}
 		return fw.Fs(cp) + fw.Fs(cp2) + fw.Fs(ts.ToFlatArray())
+	})
+	add("xy flat functions on part sub-slices of shared geometries", ng, func(fx *c17fx, k int) string {
+		// the flat arrays handed over here are windows into a larger shared
+		// array: what lies behind them is the next ring / line of the same geometry
+		t := fx.geoms[k]
+		p := fx.coords[k%len(fx.coords)]
+		var sb strings.Builder
+		switch x := t.(type) {
+		case *geom.Polygon:
+			for i := 0; i < x.NumLinearRings(); i++ {
+				f := x.LinearRing(i).FlatCoords()
+				if len(f) >= 3*x.Stride() {
+					fmt.Fprint(&sb, xy.IsPointInRing(x.Layout(), p, f), xy.LocatePointInRing(x.Layout(), p, f), xy.IsRingCounterClockwise(x.Layout(), f), fbits(xy.SignedArea(x.Layout(), f)))
+				}
+			}
+		case *geom.MultiPolygon:
+			for i := 0; i < x.NumPolygons(); i++ {
+				pg := x.Polygon(i)
+				for j := 0; j < pg.NumLinearRings(); j++ {
+					f := pg.LinearRing(j).FlatCoords()
+					if len(f) >= 3*x.Stride() {
+						fmt.Fprint(&sb, xy.IsPointInRing(x.Layout(), p, f), xy.LocatePointInRing(x.Layout(), p, f))
+					}
+				}
+			}
+		case *geom.MultiLineString:
+			for i := 0; i < x.NumLineStrings(); i++ {
+				f := x.LineString(i).FlatCoords()
+				if len(f) >= x.Stride() {
+					fmt.Fprint(&sb, fbits(xy.DistanceFromPointToLineString(x.Layout(), p, f)), xy.SimplifyFlatCoords(f, 1, x.Stride()), gstr(xy.ConvexHullFlat(x.Layout(), f), nil))
+					if len(f) >= 2*x.Stride() {
+						fmt.Fprint(&sb, xy.IsOnLine(x.Layout(), p, f))
+					}
+				}
+			}
+		case *geom.LineString:
+			if x.NumCoords() >= 3 {
+				f := x.SubLineString(1, x.NumCoords()-1).FlatCoords()
+				fmt.Fprint(&sb, fbits(xy.DistanceFromPointToLineString(x.Layout(), p, f)), xy.SimplifyFlatCoords(f, 1, x.Stride()), cstr(xy.PointsCentroidFlat(x.Layout(), f)))
+			}
+		}
+		return sb.String()
 	})
 	add("xy angle helpers/Equal", nc, func(fx *c17fx, k int) string {
 		a, b := fx.coords[k], fx.coords[k+1]
